@@ -27,7 +27,7 @@ CONSTANTS UpperSet, LamSet, PolarQuats, StretchSet
 VARIABLE c
 T3 == (-1..1) \X (-1..1) \X (-1..1)
 UpperQuick == {<<1, 0, -1>>, <<0, 1, 1>>, <<1, 1, 1>>}
-LamQuick == {<<1, 2, 3>>, <<0, 1, -1>>, <<2, 2, -1>>, <<0, 0, 0>>, <<1, 1, 1>>, <<-2, 3, 0>>, <<3, -1, -2>>, <<0, 0, 2>>}
+LamQuick == {<<1, 2, 3>>, <<2, 2, -1>>, <<0, 0, 0>>, <<1, 1, 1>>, <<-2, 3, 0>>, <<3, -1, -2>>}
 LamAll == {l \in (-2..3) \X (-2..3) \X (-2..3) : l[1] <= l[2] /\ l[2] <= l[3]}
 Lower(t) == << <<Q(1), QZ, QZ>>, <<Q(t[1]), Q(1), QZ>>, <<Q(t[2]), Q(t[3]), Q(1)>> >>
 Upper(t) == << <<Q(1), Q(t[1]), Q(t[2])>>, <<QZ, Q(1), Q(t[3])>>, <<QZ, QZ, Q(1)>> >>
@@ -35,7 +35,10 @@ Upper(t) == << <<Q(1), Q(t[1]), Q(t[2])>>, <<QZ, Q(1), Q(t[3])>>, <<QZ, QZ, Q(1)
 SymOf(u) == << <<Q(u[1]), Q(u[4]), Q(u[5])>>, <<Q(u[4]), Q(u[2]), Q(u[6])>>, <<Q(u[5]), Q(u[6]), Q(u[3])>> >>
 StretchCandidates == (1..3) \X (1..3) \X (1..3) \X (-1..1) \X (-1..1) \X (-1..1)
 StretchAll == {u \in StretchCandidates : IsPD(SymOf(u))}
-StretchQuick == {u \in StretchAll : (u[1] + 2 * u[2] + 3 * u[3] + 4 * u[4] + 5 * u[5] + 6 * u[6]) % 6 = 0}
+Hash(u) == u[1] + 2 * u[2] + 3 * u[3] + 4 * u[4] + 5 * u[5] + 6 * u[6]
+StretchQuick == {u \in StretchAll : Hash(u) % 9 = 0}
+StretchThorough == {u \in StretchAll : Hash(u) % 2 = 0}
+UpperThorough == {t \in T3 : t[1] + t[2] + t[3] \in {-1, 0, 2}}
 \* singular PSD stretches a.a' + b.b'
 Vecs == {<<0, 0, 0>>, <<1, 0, 0>>, <<1, 1, 0>>, <<1, -1, 2>>, <<0, 2, 1>>}
 Outer2(a, b) == [i \in I3 |-> [j \in I3 |-> Q(a[i] * a[j] + b[i] * b[j])]]
